@@ -1113,6 +1113,141 @@ pub fn case_strategy() -> BoxedStrategy<Case> {
     prop_oneof![4 => instantiation, 3 => renamed, 1 => independent, 2 => triple].boxed()
 }
 
+// ------------------------------------------------------------------------------------------
+// Byte decoder (libFuzzer target `fz_c17`): the same case classes as `case_strategy`, with every
+// choice read from the input bytes, so that coverage-guided mutation edits generator decisions.
+// ------------------------------------------------------------------------------------------
+
+struct Cur<'a> {
+    d: &'a [u8],
+    i: usize,
+}
+
+impl Cur<'_> {
+    fn b(&mut self) -> u8 {
+        let v = self.d.get(self.i).copied().unwrap_or(0);
+        self.i += 1;
+        v
+    }
+    fn u16(&mut self) -> u16 {
+        u16::from_le_bytes([self.b(), self.b()])
+    }
+    fn u32(&mut self) -> u32 {
+        u32::from_le_bytes([self.b(), self.b(), self.b(), self.b()])
+    }
+    fn left(&self) -> bool {
+        self.i < self.d.len()
+    }
+}
+
+fn dec_lt(c: &mut Cur, elidable: bool) -> Lt {
+    match c.b() % 7 {
+        0 | 1 | 2 if elidable => Lt::Elided,
+        0 | 3 => Lt::Inferred,
+        1 | 4 => Lt::Static,
+        x => Lt::Named(["a", "b", "life"][x as usize % 3].to_string()),
+    }
+}
+
+fn dec_leaf(c: &mut Cur, generics: bool) -> Ty {
+    let k = c.b();
+    match k % 9 {
+        0 | 1 | 2 => Ty::Scalar(c.b() % 17),
+        3 | 4 | 5 if generics => Ty::Gen(["T", "U", "V"][c.b() as usize % 3].to_string()),
+        3 | 4 | 5 | 6 | 7 => {
+            let p = c.b() % 6;
+            Ty::Path { alias: k & 0x80 != 0 && p % 2 == 0, path: p, args: vec![] }
+        }
+        _ => Ty::Tuple(vec![]),
+    }
+}
+
+fn dec_ty(c: &mut Cur, generics: bool, depth: usize) -> Ty {
+    if depth == 0 || !c.left() {
+        return dec_leaf(c, generics);
+    }
+    let k = c.b();
+    match k % 20 {
+        0..=3 => {
+            let p = c.b() % 6;
+            let n = 1 + c.b() as usize % 3;
+            let args = (0..n)
+                .map(|_| match c.b() % 8 {
+                    0..=4 => Arg::Ty(dec_ty(c, generics, depth - 1)),
+                    5 | 6 => Arg::Lt(dec_lt(c, false)),
+                    _ => Arg::Const(["0", "8", "255", "true", "'x'"][c.b() as usize % 5].to_string()),
+                })
+                .collect();
+            Ty::Path { alias: k & 0x80 != 0 && p % 2 == 0, path: p, args }
+        }
+        4..=7 => Ty::Ref { m: k & 0x80 != 0, lt: dec_lt(c, true), inner: Box::new(dec_ty(c, generics, depth - 1)) },
+        8..=10 => {
+            let n = 1 + c.b() as usize % 3;
+            Ty::Tuple((0..n).map(|_| dec_ty(c, generics, depth - 1)).collect())
+        }
+        11 => Ty::Slice(Box::new(dec_ty(c, generics, depth - 1))),
+        12 | 13 => Ty::Array(Box::new(dec_ty(c, generics, depth - 1)), c.b() as usize % 5),
+        14 | 15 => Ty::Ptr { m: k & 0x80 != 0, inner: Box::new(dec_ty(c, generics, depth - 1)) },
+        16 | 17 => {
+            let n = c.b() as usize % 3;
+            let inputs = (0..n)
+                .map(|_| {
+                    let name = match c.b() % 3 {
+                        0 => None,
+                        x => Some(["x", "arg"][x as usize % 2].to_string()),
+                    };
+                    (name, dec_ty(c, generics, depth - 1))
+                })
+                .collect();
+            let output = if c.b() % 2 == 0 { Some(Box::new(dec_ty(c, generics, depth - 1))) } else { None };
+            Ty::Fn { inputs, output, abi: c.b() % 6, unsafe_: k & 0x80 != 0 }
+        }
+        _ => dec_leaf(c, generics),
+    }
+}
+
+/// Decode a case from raw bytes (every byte string decodes to some case).
+pub fn case_from_bytes(data: &[u8]) -> Case {
+    let mut c = Cur { d: data, i: 0 };
+    let class = c.b() % 10;
+    let mutn = |c: &mut Cur| if c.b() % 2 == 0 { Some((c.u16(), c.b())) } else { None };
+    match class {
+        0..=3 => {
+            let tpl = dec_ty(&mut c, true, 4);
+            let b: BTreeMap<String, Ty> = ["T", "U", "V"].iter().map(|k| (k.to_string(), dec_ty(&mut c, false, 3))).collect();
+            let mut conc = subst(&tpl, &b);
+            if c.b() % 2 == 0 {
+                let mut s = c.u32();
+                conc = relifetime(&conc, &mut s);
+            }
+            if let Some((raw, kind)) = mutn(&mut c) {
+                conc = mutate_at(&conc, raw, kind);
+            }
+            Case::Pair(tpl, conc)
+        }
+        4..=6 => {
+            let t = dec_ty(&mut c, true, 4);
+            let mut s = c.u32();
+            let mut u = relifetime(&rename_generics(&t, c.b()), &mut s);
+            if let Some((raw, kind)) = mutn(&mut c) {
+                u = mutate_at(&u, raw, kind);
+            }
+            Case::Pair(t, u)
+        }
+        7 => Case::Pair(dec_ty(&mut c, true, 4), dec_ty(&mut c, true, 4)),
+        _ => {
+            let t = dec_ty(&mut c, true, 4);
+            let mut s = c.u32();
+            let b = relifetime(&rename_generics(&t, c.b()), &mut s);
+            let mut cc = relifetime(&rename_generics(&b, c.b()), &mut s);
+            if let Some((raw, kind)) = mutn(&mut c) {
+                cc = mutate_at(&cc, raw, kind);
+            }
+            Case::Triple(t, b, cc)
+        }
+    }
+}
+
 /// Documented contract of `canonicalize` (doc comment in type_.rs): copies that differ only by a
 /// bijective renaming of generics and by non-static lifetime names have the same canonical form.
 fn canon_contract(case: &(Ty, u8, u32)) -> CaseResult {
